@@ -160,8 +160,7 @@ def gen_case(run_seed: int, index: int, tier: str) -> dict:
     case["mod"], case["B"], case["b"] = mod, B, b
     zero_msg = rng.random() < 0.05
     case["messages"] = [[0 if zero_msg else rng.randrange(2) for _ in range(b * k)] for _ in range(B)]
-    if soft:
-        case["noise_var"] = round(10 ** rng.uniform(-2, 1), 5)
+    llr_floor = 10 ** rng.uniform(0.0, 1.5)  # smallest |LLR| the soft run will contain (1 .. 31), see below
     # ---- the plan itself
     if pk == "ideal":
         case["plan"] = {"kind": "ideal"}
@@ -194,6 +193,21 @@ def gen_case(run_seed: int, index: int, tier: str) -> dict:
             sigma = dmin / 2.0 / z
             cplx = mod["scheme"] not in ("pam",) and not (mod["scheme"] == "bpsk" and not mod.get("complex_output", True))
             case["plan"] = {"kind": "awgn", "noise_power": sigma * sigma * (2 if cplx else 1), "dmin": dmin, "torch_seed": rng.randrange(1 << 31)}
+    if soft:
+        # The demodulator's noise_var only scales the LLRs.  It is set so that the weakest LLR of an in-budget
+        # run is llr_floor: |LLR| >= d_min^2 (1 - rho) / noise_var for a displacement of rho * d_min / 2.
+        # (With an arbitrary noise_var the LLRs of a 64-bit polar block were ~1e-3, and the sum-product check
+        # combination underflowed to exactly 0 in float32 after five levels: a numerical regime the property
+        # does not speak about.  DESIGN §13.)
+        pl = case["plan"]
+        dm = linksim.constellation_dmin(m) or 1.0
+        if pl["kind"] == "displace":
+            case["noise_var"] = dm * dm * (1.0 - pl["rho"]) / llr_floor
+        elif pl["kind"] == "awgn":
+            case["noise_var"] = pl["noise_power"]  # matched to the channel; in-budget means displacement < 0.9 d_min/2 here
+            pl["soft_budget"] = 0.9
+        else:
+            case["noise_var"] = dm * dm / llr_floor
     return case
 
 
